@@ -7,7 +7,7 @@ using namespace vk;
 static bool safech(unsigned char c) { return isalnum(c) || strchr(".@%+/=:-[]", c) != nullptr; }
 static std::string ns(const std::string &s) { return std::to_string(s.size()) + ":" + s + ","; }
 
-struct Case { std::string name, daemon, input; std::map<std::string, std::string> env; std::string sender; std::vector<std::string> rcpts; std::string body, body2; bool has_body2 = false; std::string morercpt; bool has_morercpt = false; std::vector<int> want_codes; bool wellformed = true; int qstatus = 0; std::string qtext; bool qcrash = false;
+struct Case { std::string name, daemon, input; std::map<std::string, std::string> env; std::string sender; std::vector<std::string> rcpts; std::string body, body2; bool has_body2 = false; std::string morercpt; bool has_morercpt = false; bool partial_ok = false; std::vector<int> want_codes; bool wellformed = true; int qstatus = 0; std::string qtext; bool qcrash = false;
               std::vector<std::string> bodies; std::vector<int> expect_multi; /* per message: 0 ack, 5 permanent */ int expect_class = 0; /* 0 success, 4 temporary, 5 permanent, -1 protocol violation (no acknowledgement at all) */ int databytes = 0; bool realqueue = false; bool cut = false; };
 
 static std::string smtp_session(const std::string &helo, const std::string &sender, const std::vector<std::string> &rc, const std::string &body_lf, bool quit = true) {
@@ -49,6 +49,20 @@ static std::vector<Case> make_cases(const Config &cfg) {
         Case s2 = base(d); s2.sender = std::string(l - 12, 's') + "@src.example"; s2.name = std::string(d) + " sender-length-" + std::to_string(l);
         s2.input = s2.daemon == "smtpd" ? smtp_session("peer.example", s2.sender, rc, body) : s2.daemon == "qmtpd" ? qmtp_session(s2.sender, rc, body) : qmqp_session(s2.sender, rc, body);
         s2.expect_class = ok ? 0 : 5; v.push_back(s2);
+      }
+      // the envelope is handed to the queue program through a 1024-byte buffer: recipients sized so that a flush ends exactly at (or one byte
+      // around) a recipient boundary, followed by a recipient the daemon must refuse; the real qmail-queue then sees end-of-file right after
+      // a complete recipient and must not take that for the end of the envelope
+      if (std::string(d) == "qmqpd") for (int delta : {-1, 0, 1}) for (int badkind : {0, 1}) {   /* QMQP is all-or-nothing; QMTP answers per recipient and queues the rest */
+        Case c = base(d); c.realqueue = true; std::string snd = "s@src.example"; c.sender = snd;
+        size_t used = 1 + snd.size() + 1;   // F sender NUL
+        std::vector<std::string> good; while (used + 2 + 200 < 1024 + (size_t) delta) { std::string r = "r" + std::to_string(good.size()) + "@" + std::string(190, 'a') + ".example"; good.push_back(r); used += 1 + r.size() + 1; }
+        { size_t left = 1024 + delta - used; if (left >= 12) { std::string r = std::string(left - 2 - 10, 'f') + "@a.example"; good.push_back(r); used += 1 + r.size() + 1; } }
+        std::string bad = badkind == 0 ? std::string("x\0y@a.example", 13) : std::string(1001, 'b') + "@a.example";
+        c.rcpts = good; std::vector<std::string> all = good; all.push_back("late@a.example"); /* its first byte pushes the full buffer to the queue program */ all.push_back(bad); all.push_back("after@a.example");
+        c.input = c.daemon == "qmtpd" ? qmtp_session(snd, all, body) : qmqp_session(snd, all, body);
+        c.name = std::string(d) + " envelope flush " + (delta < 0 ? "one byte before" : delta ? "one byte after" : "exactly at") + " a recipient boundary (" + std::to_string(used) + " bytes), then a recipient " + (badkind ? "of 1011 bytes" : "containing NUL") + ", real qmail-queue";
+        c.expect_class = 5; c.rcpts.clear(); c.partial_ok = c.daemon == "qmtpd"; v.push_back(c);
       }
       // NUL bytes in addresses (QMTP/QMQP), malformed framing
       if (std::string(d) != "smtpd") {
